@@ -147,6 +147,21 @@ def _list_pairs(doc, limit=6):
     return out[:limit]
 
 
+def _substituted(ela, elb):
+    """does serialize_json replace `ela` (as the items of an array) by a reference to the
+    caller-supplied definition `elb`?  None when not applicable (object classes are references anyway)"""
+    from statham.serializers import serialize_json
+    from statham.schema.elements import Array
+    from statham.schema.elements.meta import ObjectMeta
+    if isinstance(ela, ObjectMeta) or isinstance(elb, ObjectMeta):
+        return None
+    try:
+        j = serialize_json(Array(ela), definitions={"d": elb})
+        return j.get("items") == {"$ref": "#/definitions/d"}
+    except Exception:  # noqa
+        return None
+
+
 def _json_or_none(el):
     from statham.serializers import serialize_json
     try:
@@ -179,7 +194,7 @@ def replay_c17(state):
         except Exception as exc:  # noqa
             obs["pairs"].append(dict(tag=tag, doc_b=d, err=repr(exc)[:120]))
             continue
-        pair = dict(tag=tag, doc_b=d, eqab=eqab, eqba=eqba)
+        pair = dict(tag=tag, doc_b=d, eqab=eqab, eqba=eqba, subst=_substituted(el, elb))
         if eqab or eqba:
             if kinds_a is None:
                 kinds_a = [drive.call(el, v)[0] for v in pyvals]
@@ -197,7 +212,7 @@ def replay_c17(state):
         except Exception as exc:  # noqa
             obs["pairs"].append(dict(tag=tag, doc_b=db, err=repr(exc)[:120]))
             continue
-        pair = dict(tag=tag, doc_b=db, eqab=eqab, eqba=eqba)
+        pair = dict(tag=tag, doc_b=db, eqab=eqab, eqba=eqba, subst=_substituted(ela, elb))
         if da is not sj:
             pair["doc_a"] = da
         if eqab or eqba:
@@ -421,6 +436,32 @@ def replay_c19(state):
             pass
         obs["wrappers"].append(dict(how=how, annot=text_annot, ty=ty, reqd=reqd, outs=outs, skipped=skipped,
                                     cause=cause))
+        if how == "property":
+            # a subclass that adds a required property, declared after its parent was used: the
+            # attribute is annotated without Maybe, so no accepted value may leave it not passed
+            try:
+                from statham.schema.elements.meta import ObjectMeta
+                from statham.schema.property import Property
+                from statham.schema.elements import String
+                parent = prop.element
+                if isinstance(parent, ObjectMeta):
+                    ns = {"Parent": parent, "Property": Property, "String": String}
+                    exec("class Child(Parent):\n    zq = Property(String(), required=True)\n", ns)  # noqa: S102
+                    child = ns["Child"]
+                    c_annot = child.properties["zq"].annotation
+                    c_outs = []
+                    for v in pyvals:
+                        for data in (v, dict(v, zq="s") if isinstance(v, dict) else None):
+                            if data is None:
+                                continue
+                            k, r = drive.call(child, data)
+                            if k == "ok" and hasattr(r, "_dict"):
+                                c_outs.append(codec.py_to_tagged(drive.project(r._dict.get("zq", NotPassed()))))
+                    obs["wrappers"].append(dict(how="subclass-required-property", annot=c_annot,
+                                                ty=_type_expr(ast.parse(c_annot, mode="eval").body), reqd=True,
+                                                outs=c_outs[:60], skipped=0, cause="other"))
+            except Exception:  # noqa
+                pass
         for (cname, attr), info in list(nested.items())[:8]:
             try:
                 nty = _type_expr(ast.parse(info["annot"], mode="eval").body)
@@ -714,6 +755,9 @@ def run(pid, tier, replay_file=None):
                     continue
                 checked += 1
                 stats["pairs"] += 1
+                if pr.get("subst") is not None and pr["subst"] != pr["eqba"]:
+                    add_event(si, ("pair", pi),
+                              '[id |-> @ID@, p |-> "C17s", eqba |-> %s, subst |-> %s]' % (B(pr["eqba"]), B(pr["subst"])))
                 if pr["eqab"] or pr["eqba"]:
                     stats["equal_pairs"] += 1
                     nontrivial.add((si, pi))
